@@ -65,6 +65,8 @@ pub struct VideoState {
   object_line_cache: [u8; 176],
   current_obj_line_cache_pixel: usize,
   current_window_line: Option<usize>,
+  /// number of vertical blanks that have ended
+  frame_count: usize,
 }
 
 impl VideoState {
@@ -103,11 +105,17 @@ impl VideoState {
       object_line_cache: [0; 176],
       current_obj_line_cache_pixel: 0,
       current_window_line: None,
+      frame_count: 0,
     }
   }
 
   pub fn get_current_mode(&self) -> u8 {
     self.current_mode
+  }
+
+  /// How many vertical blanks have ended so far
+  pub fn get_frame_count(&self) -> usize {
+    self.frame_count
   }
 
   /// Position in the frame: (mode, dots spent in the mode, line)
@@ -497,6 +505,7 @@ impl VideoState {
               interrupt_state |= self.check_current_line();
             } else {
               // VBLANK ended, start in mode 2 on line 0
+              self.frame_count = self.frame_count.wrapping_add(1);
               self.current_line = 0;
               self.current_mode = 2;
               // pre-compute up to 10 sprites that overlap the current line
